@@ -104,6 +104,18 @@ def run(chk):
                 if not (okc and okv):
                     oracle_bad.append(dict(noise=nm, op="gp.covariance/" + solver.__name__, n=n, J=J,
                                            expected=(Kx + Bm).tolist(), observed=np.asarray(gp.covariance).tolist()))
+                # ... and uses exactly that matrix as observation covariance: likelihood and conditional mean at the training inputs
+                yv = rng.normal(size=n)
+                Sg = Kx + Bm
+                want_lp = -0.5 * yv @ np.linalg.solve(Sg, yv) - 0.5 * np.linalg.slogdet(Sg)[1] - 0.5 * n * np.log(2 * np.pi)
+                want_mean = Kx @ np.linalg.solve(Sg, yv)
+                for op_, got_, wnt_ in (("log_probability", np.asarray(gp.log_probability(jnp.asarray(yv))), want_lp),
+                                        ("condition(y).loc", np.asarray(gp.condition(jnp.asarray(yv)).gp.loc), want_mean),
+                                        ("predict(y)", np.asarray(gp.predict(jnp.asarray(yv))), want_mean)):
+                    okm, _ = close(np.atleast_1d(got_), np.atleast_1d(wnt_), 1e-9)
+                    if not okm:
+                        oracle_bad.append(dict(noise=nm, op=f"gp.{op_}/" + solver.__name__, n=n, J=J, y=yv.tolist(),
+                                               expected=np.atleast_1d(wnt_).tolist(), observed=np.atleast_1d(got_).tolist()))
     model = coq_eval("c11", IMPORTS, exprs, shard=80)
     for (case, g), mv in zip(expect, model):
         if not np.array_equal(np.asarray(mv, float), np.asarray(g, float)):
